@@ -12,6 +12,7 @@ XTab(dist) == [k \in 1..257 |-> Tab[(IF dist = "norm" THEN 0 ELSE 257) + k].xo] 
 RLim(dist) == Tab[514 + (IF dist = "norm" THEN 1 ELSE 2)].ro
 VARIABLE l
 Ev == Rec[l]
+Within(a, b, d) == LLE(a, LAdd(b, <<0, 0, d>>)) /\ LLE(b, LAdd(a, <<0, 0, d>>))
 
 Rule ==
     /\ Ev.res = "Ok"
@@ -20,6 +21,12 @@ Rule ==
          /\ (Ev.dist = "norm" /\ ~LEQ(Ev.absout, FZero)) => (Ev.neg = Ev.uneg)      \* sign of the result = sign of u
          /\ (Ev.dist = "exp") => ~Ev.neg
     /\ Ev.f32ok                                         \* the f32 sampler returns the rounding of the f64 one, same words
+    \* scripted extreme classes: the outcome follows from monotonicity of the density alone
+    /\ (Ev.tag = "wedge U=0")      => Ev.words >= 3                   \* f[i+1] < pdf(x) cannot hold for x >= x[i+1]: rejected
+    /\ (Ev.tag = "wedge U=max")    => Ev.words = 2                    \* ~f[i] < pdf(x) just above x[i+1]: accepted
+    /\ (Ev.tag = "tail x~0 y=min") => (Ev.words = 3 /\ Within(Ev.absout, RLim(Ev.dist), 2))
+    /\ (Ev.tag = "tail x big y~0") => Ev.words >= 5                   \* -2y < x^2: draw again
+    /\ (Ev.tag = "tail U=max")     => (Ev.words = 2 /\ Within(Ev.absout, RLim(Ev.dist), 2))
 
 TInit == l = 1
 TNext == /\ l <= Len(Rec) /\ l' = l + 1
